@@ -309,7 +309,39 @@ def opHistory : Op := fun j => do
     ("reads", jArr out.reads),
     ("reads_nodup", jBool out.readsNodup)]
 
+/-- `LRUCache` / `NullCache` alone: fold of get/set operations; the checker compares the
+model's final content with the reference `specTouch` folded over the same operations -/
+def opLru : Op := fun j => do
+  let size ← getNat j "size"
+  let ops ← getArr j "ops"
+  let mut c : Cache Nat := ⟨size, []⟩
+  let mut ref : List (String × Nat) := []
+  let mut gets : List Json := []
+  for o in ops do
+    let (tag, a) ← tagOf o
+    let k ← (a[1]?.getD Json.null).getStr?
+    match tag with
+    | "get" =>
+      let r := c.get k
+      gets := gets ++ [match r.1 with | some v => jNat v | none => Json.null]
+      c := r.2
+      if size > 0 then
+        match odGet k ref with
+        | some v => ref := specTouch size k v ref
+        | none => pure ()
+    | "set" =>
+      let v ← (a[2]?.getD Json.null).getNat?
+      c := c.set k v
+      if size > 0 then ref := specTouch size k v ref
+    | t => throw s!"bad lru op {t}"
+  return Json.mkObj [
+    ("gets", jArr gets),
+    ("keys", jArr (c.data.map (fun p => jStr p.1))),
+    ("ref_keys", jArr (ref.map (fun p => jStr p.1))),
+    ("len", jNat c.data.length)]
+
 def ops : List (String × Op) := [
+  ("yaml.lru", opLru),
   ("yaml.compile", opCompile),
   ("yaml.resolve", opResolve),
   ("yaml.merge", opMerge),
